@@ -45,6 +45,43 @@ def free_scenario(rng, idx):
     return scn
 
 
+SUM_CLAUSES = {"C01": ["Serial"], "C02": ["ExactlyOnce", "NoLostWakeup", "NoSpontaneousTermination"], "C03": ["SenderFifo"],
+               "C05": ["NoSpontaneousTermination"]}
+
+
+def run_hammer(prop, tier, w, vh, idx, limit):
+    """high-volume free-running executions; one summary line per actor validated by TLC against spec/ProcSum.tla"""
+    name = "HAMMER%d" % idx
+    out = {"scenario": name, "violations": []}
+    trace = "trace_%s.ndjson" % name
+    ms = 2500 if tier == "quick" else 12000
+    args = ["proccore", "-hammer_ms", str(ms), "-actors", "8", "-senders", str(3 + idx), "-limit", str(limit), "-out", os.path.join(w, trace),
+            "-node", "vhpc%d_%s@localhost" % (os.getpid(), name)]
+    rc, so, se, to = vlib.run_vh(vh, args, timeout=600)
+    if rc != 0 and not to and vlib.crashed_in_repo(se):
+        out["violations"].append({"clause": "NoCrash", "scenario": {"name": name, "hammer": True}, "plan": None, "at_event": None, "crash": se[:3000]})
+        out["harness"] = {"plans": 0, "steps": 0, "stalls": 0}
+        return out
+    if rc != 0 or to:
+        raise vlib.Infra("hammer failed rc=%s timeout=%s: %s" % (rc, to, (se or so)[-1500:]))
+    out["harness"] = json.loads(so.strip().splitlines()[-1])
+    mname = "MC_PS_%s" % name
+    import fam
+    fam.write_mc(w, mname, "ProcSum", {}, {"TraceFile": '"%s"' % trace, "Checks": fam.tla_set(SUM_CLAUSES[prop])}, constraint="HWM", postcondition="TraceAccepted")
+    r = vlib.run_tlc(w, mname + ".tla", mname + ".cfg", workers=1, timeout=300)
+    post = parse_post(r.out)
+    if r.rc == 0 and post is None:
+        out["obs"] = {"accepted": True, "executions": out["harness"]["plans"], "wall": round(r.wall, 1), "states": r.distinct}
+    elif post and post[0] == "violated":
+        lines = open(os.path.join(w, trace)).read().splitlines()
+        out["obs"] = {"accepted": False, "clause": post[1], "line": post[2]}
+        out["violations"].append({"clause": post[1], "scenario": {"name": name, "hammer": True, "limit": limit}, "plan": post[2], "at_event": None,
+                                  "execution": [json.loads(x) for x in lines]})
+    else:
+        raise vlib.Infra("ProcSum could not consume %s: %s" % (name, (r.error or r.out[-1200:])))
+    return out
+
+
 def parse_post(out):
     m = re.search(r'"CLAUSE_VIOLATED", "(\w+)", "LINE", (\d+)', out)
     if m:
@@ -104,6 +141,19 @@ def run_scenario(prop, tier, scn, w, vh, rng_seed, stats, free=0):
     if free:
         args += ["-free", str(free)]
     rc, so, se, to = vlib.run_vh(vh, args, timeout=1200)
+    if rc != 0 and not to and vlib.crashed_in_repo(se):
+        # the node process died inside ergo code while executing the scenario: an observation, not a harness failure
+        last = None
+        try:
+            with open(os.path.join(w, trace)) as f:
+                for ln in f:
+                    last = ln
+        except OSError:
+            pass
+        out["violations"].append({"clause": "NoCrash", "scenario": pc.scn_for_harness(scn) if free == 0 else {"name": name, "free": True},
+                                  "plan": json.loads(last)["p"] if last else None, "at_event": None, "crash": se[:3000]})
+        out["harness"] = {"plans": 0, "steps": 0, "stalls": 0}
+        return out
     if rc != 0 or to:
         raise vlib.Infra("harness failed on %s rc=%s timeout=%s: %s" % (name, rc, to, (se or so)[-1500:]))
     hs = json.loads(so.strip().splitlines()[-1])
@@ -168,6 +218,10 @@ def main(prop, tier):
             futs = [ex.submit(run_scenario, prop, tier, scn, w, vh, seed * 7919 + i, None, free) for i, (scn, free) in enumerate(jobs)]
             for f in futs:
                 results.append(f.result())
+        # the high-volume mode wants the cores for itself: run it after the controlled replays
+        results.append(run_hammer(prop, tier, w, vh, 0, 0))
+        if tier == "thorough" or prop == "C02":
+            results.append(run_hammer(prop, tier, w, vh, 1, 64))
         # ---- verdict
         violations = [(r["scenario"], v) for r in results for v in r["violations"]]
         states = sum(r.get("u1", {}).get("distinct", 0) for r in results)
@@ -191,6 +245,7 @@ def main(prop, tier):
             "plans_replayed": sum(r.get("plans", 0) for r in results),
             "steps_replayed": sum(r.get("harness", {}).get("steps", 0) for r in results),
             "free_running_executions": sum(r.get("harness", {}).get("plans", 0) for r in results if r["scenario"].startswith("FREE")),
+            "hammer_messages": sum(r.get("harness", {}).get("steps", 0) for r in results if r["scenario"].startswith("HAMMER")),
             "drift_events": len(drift), "drift": drift[:3],
             "controller_stalls": stalls,
             "clauses": pc.OBS_INVARIANTS[prop],
